@@ -1,14 +1,16 @@
 import McpModel.Base.Proto
-import McpModel.Notify.Model
-import McpModel.Notify.Cache
+import McpModel.Notify.System
 /-!
-Driver for E14 (C18): replays the harness's labels on the composed model (one `Notify.Server`, and per
-client slot five `Notify.Cache.State`s whose `bump`/`announce`/`handle` labels are driven by the
-server model's outputs) and evaluates the C18 monitors on the IMPLEMENTATION's observations.
+Driver for E14 (C18): the STRING LAYER only.  It parses the harness's op tokens and the implementation's
+observation into the typed records of `Monitor.lean` (`Mon.Op`, `Mon.Obs`), replays the op on the typed
+composed model (`Sys.sysStep`, System.lean) and renders the predicted observation, runs the typed C18
+monitor (`Mon.monStep`, Monitor.lean) on the IMPLEMENTATION's observation and renders the clause it
+returns (`clauseText`).  Neither the model nor the monitor lives here.
 
-Listen names and request ids: `m` (connect-time listen) = 0, `r<j>` (`ClientSession.Subscribe(u<j>)`) = j+1,
-`L<n>` (raw listen opened by `xlisten`) = 10+n.  Any number of them may be open on one session and be
-granted the same kinds / URI; they end in any order (`xend`, `unsubscribe`).
+Listen names and request ids: `m` (connect-time listen) = 0, `r<j>` (`ClientSession.Subscribe(u<j>)`) = 2j+1,
+`L<n>` (raw listen opened by `xlisten`) = 2n+2 (`parseName` / `nameStr` are inverse bijections).  Any number
+of them may be open on one session and be granted the same kinds / URI; they end in any order (`xend`,
+`unsubscribe`).
 
 `listen` / `subscribe` / `xlisten` of a 2026-07-28 session are the model labels `listen` (registration section)
 and `listenAck` (acknowledgement write) back to back — the harness has no schedule point between
@@ -21,6 +23,7 @@ Op grammar (one label per record; observation after `=>`):
   config <capT> <capP> <capR> <hook0|hook1>      => ok          caps: unset|on|off
   ttl <ms>                                         => ok
   change <tools|prompts|resources|templates> <add|replace|remove|noop>  => ok
+  change <set> rm <p|a|d>+                         => ok          (ONE Remove*(names…) call: p a registered feature, a a never-registered name, d a name named before in the call)
   advance <ms>                                     => hook1: `fired <kinds…>` ; hook0: ok (the harness then emits the cbrun records itself)
   cbrun <kind>                                     => sent@<t> c<slot>:<method>:<stamp>:<handler>…   | none
   cbrun <kind> step                                => fan open | fan done | none    (the callback takes its snapshot; its fan-out loop is then held before every write)
@@ -42,9 +45,9 @@ Op grammar (one label per record; observation after `=>`):
   end                                              => ok
 -/
 namespace Notify.Drv
-open Proto Generated.Notify
+open Proto Generated.Notify Notify.Mon
 
-/-! ### small helpers -/
+/-! ### tokens → typed records -/
 
 def kindLetter : Kind → String
   | .tools => "t" | .prompts => "p" | .resources => "r"
@@ -62,27 +65,186 @@ def parseFSet : String → Option FSet
 def parseEff : String → Option Eff
   | "add" => some .add | "replace" => some .replace | "remove" => some .remove | "noop" => some .noop | _ => none
 
+/-- the names of one `Remove*(names…)` call: `p` a registered feature (not named before in the call), `a` a name
+that was never registered, `d` a name already named in the call (gone when the loop reaches it) -/
+def parseNames (pat : String) : Option (List NameAt) :=
+  pat.toList.mapM (fun c => if c == 'p' then some NameAt.present else if c == 'a' || c == 'd' then some NameAt.absent else none)
+
 def parseMask (m : String) : List Kind :=
   Kind.all.filter (fun k => m.toList.contains ((kindLetter k).toList.getD 0 '?'))
 
-def parseSlot (s : String) : Option Nat :=
+def parseSlot (s : String) : Option Slot :=
   match s.toList with
-  | ['c', d] => if '0' ≤ d ∧ d ≤ '2' then some (d.toNat - 48) else none
+  | ['c', '0'] => some 0
+  | ['c', '1'] => some 1
+  | ['c', '2'] => some 2
   | _ => none
 
 def parseUri (s : String) : Option Nat :=
   if s.startsWith "u" then (s.drop 1).toNat? else none
 
-/-- `tools` … `read:1` ↦ (cache object, key, feature set if a list). -/
-def parseKey (s : String) : Option (CacheObj × Nat) :=
-  match s with
-  | "tools" => some (.tools, 0) | "prompts" => some (.prompts, 0) | "resources" => some (.resources, 0)
-  | "templates" => some (.templates, 0)
-  | _ => if s.startsWith "read:" then (s.drop 5).toNat?.map (fun n => (CacheObj.read, n)) else none
+/-- `tools` … `read:1` -/
+def parseKey (s : String) : Option Key :=
+  match parseFSet s with
+  | some f => some (.list f)
+  | none => if s.startsWith "read:" then (s.drop 5).toNat?.map Key.read else none
 
-def objFSet : CacheObj → Option FSet
-  | .tools => some .tools | .prompts => some .prompts | .resources => some .resources
-  | .templates => some .templates | .read => none
+def parseMode : String → Option Mode
+  | "n" => some .n | "post" => some .post | "pre" => some .pre | _ => none
+
+/-- `m` ↦ 0, `r<j>` ↦ 2j+1, `L<n>` ↦ 2n+2. -/
+def parseName (s : String) : Option Nat :=
+  if s == "m" then some 0
+  else if s.startsWith "r" then (s.drop 1).toNat?.map (fun j => 2 * j + 1)
+  else if s.startsWith "L" then (s.drop 1).toNat?.map (fun n => 2 * n + 2)
+  else none
+
+def nameStr (id : Nat) : String :=
+  if id == 0 then "m" else if id % 2 == 1 then s!"r{(id - 1) / 2}" else s!"L{(id - 2) / 2}"
+
+def holdTok : List String → Option Bool
+  | [] => some false
+  | ["hold"] => some true
+  | _ => none
+
+def parseOp (toks : List String) : Op :=
+  ((match toks with
+   | ["config", a, b, c, h] => do some (Op.config (← parseCap a) (← parseCap b) (← parseCap c) (h == "hook1"))
+   | ["ttl", n] => n.toNat?.map Op.ttl
+   | ["change", f, e] => do some (Op.change (← parseFSet f) (← parseEff e))
+   | ["change", f, "rm", pat] => do some (Op.change (← parseFSet f) (removeEff (← parseNames pat)))
+   | ["advance", d] => d.toNat?.map Op.advance
+   | ["cbrun", k] => (parseKind k).map Op.cbrun
+   | ["cbrun", k, "step"] => (parseKind k).map Op.cbstep
+   | ["fsend", k] => (parseKind k).map Op.fsend
+   | ["policy", u, pol] =>
+     if pol == "refuse" then (parseUri u).map (Op.policy · true)
+     else if pol == "accept" then (parseUri u).map (Op.policy · false)
+     else none
+   | ["canceldone", c, name] => do some (Op.canceldone (← parseSlot c) (← parseName name))
+   | ["connect", c, sid, g, m] => do some (Op.connect (← parseSlot c) (← sid.toNat?) (g == "modern") (parseMask m))
+   | "listen" :: c :: rest => do some (Op.listen (← parseSlot c) (← holdTok rest))
+   | "subscribe" :: c :: u :: rest => do some (Op.subscribe (← parseSlot c) (← parseUri u) (← holdTok rest))
+   | "xlisten" :: c :: name :: mask :: rest =>
+     let us := rest.takeWhile (fun (w : String) => w.startsWith "u")
+     let rest := rest.dropWhile (fun (w : String) => w.startsWith "u")
+     do some (Op.xlisten (← parseSlot c) (← parseName name) (parseMask mask) (← us.mapM parseUri) (← holdTok rest))
+   | "xend" :: c :: name :: rest => do some (Op.xend (← parseSlot c) (← parseName name) (← holdTok rest))
+   | ["ackdone", c, which] => do some (Op.ackdone (← parseSlot c) (← parseName which))
+   | "unsubscribe" :: c :: u :: rest => do some (Op.unsubscribe (← parseSlot c) (← parseUri u) (← holdTok rest))
+   | ["close", c] => (parseSlot c).map Op.close
+   | ["rupdated", u] => (parseUri u).map (fun u => Op.rupdated u u)
+   | ["rupdated", u, "names", v] => do some (Op.rupdated (← parseUri u) (← parseUri v))
+   | ["list", c, key, mode] => do some (Op.list (← parseSlot c) (← parseKey key) (← parseMode mode))
+   | ["send", c, key] => do some (Op.send (← parseSlot c) (← parseKey key))
+   | ["fill", c, key] => do some (Op.fill (← parseSlot c) (← parseKey key))
+   | ["tables"] => some .tables
+   | ["end"] => some .fin
+   | _ => none) : Option Op).getD .bad
+
+def parseWho (s : String) : Option Who :=
+  match parseSlot s with
+  | some i => some (.slot i)
+  | none => if s.startsWith "x" then (s.drop 1).toNat?.map Who.closed else none
+
+def parseMeth (s : String) : Meth :=
+  match Kind.all.find? (fun k => listChangedMethod k == s) with
+  | some k => .changed k
+  | none => if s == resourceUpdatedMethod then .updated else .other
+
+def parseStamp (s : String) : Stamp :=
+  if s == "plain" then .plain else
+  match parseName s with
+  | some n => .id n
+  | none => .bad
+
+def parseHk (s : String) : Hk :=
+  if s == "-" then .none else
+  match Kind.all.find? (fun k => kindLetter k == s) with
+  | some k => .kind k
+  | none => match parseUri s with
+    | some u => .uri u
+    | none => .other
+
+/-- `sent@<t> c<i>:<method>:<stamp>:<handler>…` -/
+def parseDeliveries (ws : List String) : Option (Nat × List Delivery) :=
+  match ws with
+  | hd :: rest =>
+    if !hd.startsWith "sent@" then none else
+    match (hd.drop 5).toNat? with
+    | none => none
+    | some t =>
+      (rest.mapM (fun (tok : String) =>
+        match tok.splitOn ":" with
+        | [c, m, st, hk] => (parseSlot c).map (fun i => (⟨.slot i, parseMeth m, parseStamp st, parseHk hk⟩ : Delivery))
+        | _ => none)).map (fun ds => (t, ds))
+  | [] => none
+
+def parseTag (s : String) : Tag :=
+  if s == "q" then .q else
+  match parseName s with
+  | some n => .id n
+  | none => .bad
+
+/-- `T[c0=m c1=m] P[] … S[c0 c1]` -/
+def parseTables (impl : String) : Tables :=
+  let pieces : List (String × List String) := (impl.splitOn "] ").map (fun piece =>
+    match piece.splitOn "[" with
+    | [name, body] => (name, words (body.replace "]" ""))
+    | _ => ("", []))
+  let entries (ws : List String) : List TEntry := ws.filterMap (fun w =>
+    match w.splitOn "=" with
+    | [a, b] => (parseWho a).map (fun who => ⟨who, parseTag b⟩)
+    | _ => none)
+  let tab (n : String) : List TEntry := entries ((pieces.lookup n).getD [])
+  { kind := fun k => tab (kindLetter k).toUpper,
+    uris := pieces.filterMap (fun p => if p.1.startsWith "U" then (p.1.drop 1).toNat?.map (fun u => (u, entries p.2)) else none),
+    sess := ((pieces.lookup "S").getD []).filterMap parseWho }
+
+/-- The implementation's observation.  The observation of a `tables` op is always read as a table dump
+(an empty or broken dump shows no subscription at all). -/
+def parseObs (op : Op) (impl : String) : Obs :=
+  match op with
+  | .tables => .tables (parseTables impl)
+  | _ =>
+  match impl with
+  | "ok" => .ok
+  | "ok listen-held" => .okListenHeld
+  | "ok cancel-held" => .okCancelHeld
+  | "none" => .none_
+  | "noop" => .noop
+  | "err" => .err
+  | "noack" => .noack
+  | "refused" => .refused
+  | "bad-op" => .badOp
+  | "pre" => .pre
+  | "fan done" => .fan true
+  | _ =>
+    if impl.startsWith "fan" then .fan false else
+    let ws := words impl
+    match ws with
+    | "ack" :: ks :: rest => .ack (parseMask ks) (rest.filterMap parseUri) (rest.contains "parked")
+    | ["ret", v, h] =>
+      (match (if v.startsWith "v" then (v.drop 1).toNat? else none) with
+       | some n => .ret n (h == "hit")
+       | none => .other)
+    | hd :: rest =>
+      if hd.startsWith "held" then .held (((rest.headD "").drop 1).toNat?.getD 0) else
+      if hd.startsWith "sent@" then
+        (match parseDeliveries ws with
+         | some (t, ds) => .sent t ds
+         | none => .other)
+      else if rest.isEmpty then .other else
+      let last := rest.getLast?.getD ""
+      (match parseDeliveries rest.dropLast with
+       | some (t, ds) => .fsent ((parseWho hd).getD (.closed 0)) t ds (last == "done")
+       | none => .other)
+    | [] => .other
+
+/-- whom the implementation's `fsend` record says its write was addressed to -/
+def hintOf (impl : String) : Option Who := (words impl).head?.bind parseWho
+
+/-! ### typed observation → string -/
 
 def maskStr (ks : List Kind) : String :=
   if ks.isEmpty then "-" else String.join (ks.map kindLetter)
@@ -93,1024 +255,146 @@ def insertBy (le : α → α → Bool) (a : α) : List α → List α
 
 def sortBy (le : α → α → Bool) (l : List α) : List α := l.foldr (insertBy le) []
 
-def setAt (l : List α) (i : Nat) (a : α) : List α := l.set i a
+def stampStr : Stamp → String
+  | .plain => "plain"
+  | .id n => nameStr n
+  | .bad => "?"
 
-def assocSet [BEq κ] (l : List (κ × β)) (k : κ) (v : β) : List (κ × β) :=
-  (l.filter (fun p => !(p.1 == k))) ++ [(k, v)]
+def methStr : Meth → String
+  | .changed k => listChangedMethod k
+  | .updated => resourceUpdatedMethod
+  | .other => "?"
 
-/-! ### the composed model -/
+def hkStr : Hk → String
+  | .none => "-"
+  | .kind k => kindLetter k
+  | .uri u => s!"u{u}"
+  | .other => "?"
 
-structure DSlot where
-  used : Bool := false
-  sid : Nat := 0
-  modern : Bool := false
-  mask : List Kind := []
-  gated : Bool := false
-  connected : Bool := false
-  rsubs : List Nat := []
-  caches : List (CacheObj × Cache.State) := []
-  held : List String := []
-  parked : List String := []   -- listen handlers held right after their ack write: "m", "r<j>"
-  cancelHeld : List String := []   -- listens whose notifications/cancelled is held in the client's transport
+def whoStr : Who → String
+  | .slot i => s!"c{i.val}"
+  | .closed sid => s!"x{sid}"
 
-structure Sys where
-  srv : Server := init (fun _ => .unset)
-  hook : Bool := false
-  ttl : Nat := 0
-  content : Nat → Nat := fun _ => 0
-  slots : List DSlot := [{}, {}, {}]
-  configured : Bool := false
-  refused : List Nat := []     -- URIs ServerOptions.SubscribeHandler refuses
+def deliveryTok (x : Delivery) : Nat × String :=
+  match x.who with
+  | .slot i => (i.val, s!"c{i.val}:{methStr x.meth}:{stampStr x.stamp}:{hkStr x.hk}")
+  | .closed sid => (9, s!"c?{sid}:{methStr x.meth}:{stampStr x.stamp}:{hkStr x.hk}")
 
-def Sys.slot (y : Sys) (i : Nat) : DSlot := y.slots.getD i {}
-
-def Sys.setSlot (y : Sys) (i : Nat) (d : DSlot) : Sys := { y with slots := setAt y.slots i d }
-
-def curVersion (y : Sys) (obj : CacheObj) (key : Nat) : Nat :=
-  match objFSet obj with
-  | some f => y.srv.ver f
-  | none => y.content key
-
-def freshCaches (y : Sys) : List (CacheObj × Cache.State) :=
-  CacheObj.all.map (fun o => (o, ({ now := y.srv.now, srv := fun k => curVersion y o k } : Cache.State)))
-
-def DSlot.cache (d : DSlot) (o : CacheObj) : Cache.State := (d.caches.lookup o).getD {}
-
-def DSlot.setCache (d : DSlot) (o : CacheObj) (c : Cache.State) : DSlot :=
-  { d with caches := assocSet d.caches o c }
-
-/-- Apply a cache label to one cache of every modern, connected slot. -/
-def Sys.cacheAll (y : Sys) (o : CacheObj) (l : Cache.Label) : Sys :=
-  { y with slots := y.slots.map (fun d =>
-      if d.used && d.modern then d.setCache o (Cache.step true (d.cache o) l).1 else d) }
-
-def Sys.tickAll (y : Sys) (dt : Nat) : Sys :=
-  CacheObj.all.foldl (fun y o => y.cacheAll o (.tick dt)) y
-
-def slotOfSid (y : Sys) (sid : Nat) : Option Nat :=
-  (List.range 3).find? (fun i => (y.slot i).used && (y.slot i).sid == sid)
-
-def stampTok : Option Nat → String
-  | none => "plain"
-  | some 0 => "m"
-  | some (n + 1) => if n + 1 ≥ 10 then s!"L{n + 1 - 10}" else s!"r{n}"
-
-/-- `m` ↦ 0, `L<n>` ↦ 10+n (the listens `xend` can end). -/
-def parseXName (s : String) : Option Nat :=
-  if s == "m" then some 0
-  else if s.startsWith "L" then (s.drop 1).toNat?.map (· + 10)
-  else none
-
-def fmtSent (now : Nat) (toks : List (Nat × String)) : String :=
-  let sorted := sortBy (fun a b => a.1 ≤ b.1) toks
+def fmtSent (now : Nat) (ds : List Delivery) : String :=
+  let sorted := sortBy (fun a b => a.1 ≤ b.1) (ds.map deliveryTok)
   String.intercalate " " (s!"sent@{now}" :: sorted.map (·.2))
 
-/-- A client handles a list-changed notification: the caches named by the regenerated table are
-invalidated (announce + handle on each). -/
-def clientHandleChanged (d : DSlot) (k : Kind) : DSlot :=
-  if !d.modern then d else
-  (clientInvalidates k).foldl (fun d o =>
-    let c := (Cache.step true (d.cache o) (.announce none)).1
-    d.setCache o (Cache.step true c (.handle (c.inbox.length - 1))).1) d
+def tagStr : Tag → String
+  | .q => "q"
+  | .id n => nameStr n
+  | .bad => "?"
 
-def clientHandleUpdated (d : DSlot) (u : Nat) : DSlot :=
-  if !d.modern || !updatedInvalidatesKey then d else
-  let c := (Cache.step true (d.cache .read) (.announce (some u))).1
-  d.setCache .read (Cache.step true c (.handle (c.inbox.length - 1))).1
+def dumpStr (l : List TEntry) : String :=
+  "[" ++ String.intercalate " " (sortBy (fun a b => a ≤ b) (l.map (fun e => s!"{whoStr e.who}={tagStr e.tag}"))) ++ "]"
 
-def deliverChanged (y : Sys) (k : Kind) (to : List Send) (at_ : Nat) : Sys × String :=
-  let (y, toks) := to.foldl (fun (acc : Sys × List (Nat × String)) x =>
-    match slotOfSid acc.1 x.sid with
-    | none => (acc.1, acc.2 ++ [(9, s!"c?{x.sid}:{listChangedMethod k}:{stampTok x.stamp}:?")])
-    | some i =>
-      let d := acc.1.slot i
-      let hk := if d.mask.contains k then kindLetter k else "-"
-      (acc.1.setSlot i (clientHandleChanged d k),
-       acc.2 ++ [(i, s!"c{i}:{listChangedMethod k}:{stampTok x.stamp}:{hk}")])) (y, [])
-  (y, fmtSent at_ toks)
-
-/-- The subscribers of `u` (`to`) get a notification that names `v`; each client invalidates `v`. -/
-def deliverUpdated (y : Sys) (_u v : Nat) (to : List Send) : Sys × String :=
-  let (y, toks) := to.foldl (fun (acc : Sys × List (Nat × String)) x =>
-    match slotOfSid acc.1 x.sid with
-    | none => (acc.1, acc.2 ++ [(9, s!"c?{x.sid}:{resourceUpdatedMethod}:{stampTok x.stamp}:?")])
-    | some i =>
-      (acc.1.setSlot i (clientHandleUpdated (acc.1.slot i) v),
-       acc.2 ++ [(i, s!"c{i}:{resourceUpdatedMethod}:{stampTok x.stamp}:u{v}")])) (y, [])
-  (y, fmtSent y.srv.now toks)
-
-def fireOrphansDue (k : Kind) : Nat → Server → List Nat → Server × List Nat
-  | 0, s, acc => (s, acc)
-  | fuel + 1, s, acc =>
-    match (s.ks k).orphans.findIdx? (fun d => d ≤ s.now) with
-    | some i => fireOrphansDue k fuel (fireOrphan s k i) (acc ++ [(s.ks k).orphans.getD i 0])
-    | none => (s, acc)
-
-/-- All timers that are due fire (tracked first, then orphans, per kind). Returns (kind, deadline) of
-each firing. -/
-def fireDue (s : Server) : Server × List (Kind × Nat) :=
-  Kind.all.foldl (fun (acc : Server × List (Kind × Nat)) k =>
-    let s := acc.1
-    let (s, f1) := match (s.ks k).tracked with
-      | some (some d) => if d ≤ s.now then (fireTracked s k, [(k, d)]) else (s, [])
-      | _ => (s, [])
-    let (s, f2) := fireOrphansDue k ((s.ks k).orphans.length) s []
-    (s, acc.2 ++ f1 ++ f2.map (fun d => (k, d)))) (s, [])
-
-def tablesStr (y : Sys) : String :=
-  let slotName (sid : Nat) : String := match slotOfSid y sid with
-    | some i => s!"c{i}" | none => s!"x{sid}"
-  let idName (sid id : Nat) : String :=
-    if genOf y.srv sid == .modern then stampTok (some id) else "q"
-  let dump (l : List (Nat × Nat)) : String :=
-    let toks := sortBy (fun a b => a ≤ b) (l.map (fun p => s!"{slotName p.1}={idName p.1 p.2}"))
-    "[" ++ String.intercalate " " toks ++ "]"
-  let u (i : Nat) : String :=
-    s!"U{i}" ++ dump ((y.srv.rsubs.filter (fun r => r.1 == i)).map (fun r => (r.2.1, r.2.2)))
-  let sess := sortBy (fun a b => a ≤ b) (y.srv.sessions.map (fun p => slotName p.1))
-  s!"T{dump (y.srv.ks .tools).subs} P{dump (y.srv.ks .prompts).subs} R{dump (y.srv.ks .resources).subs} {u 0} {u 1} {u 2} S[" ++
-    String.intercalate " " sess ++ "]"
+def tablesStr (tb : Tables) : String :=
+  String.intercalate " " ([s!"T{dumpStr (tb.kind .tools)}", s!"P{dumpStr (tb.kind .prompts)}", s!"R{dumpStr (tb.kind .resources)}"] ++
+    tb.uris.map (fun p => s!"U{p.1}{dumpStr p.2}") ++
+    ["S[" ++ String.intercalate " " (sortBy (fun a b => a ≤ b) (tb.sess.map whoStr)) ++ "]"])
 
 def ackStr (kinds : List Kind) (uris : List Nat) : String :=
   String.intercalate " " (["ack", maskStr (Kind.all.filter kinds.contains)] ++ (sortBy (· ≤ ·) uris).map (fun u => s!"u{u}"))
 
-def firstAck (outs : List Out) : String :=
-  match outs.findSome? (fun o => match o with | .ack _ _ ks us => some (ackStr ks us) | _ => none) with
-  | some s => s
-  | none => "noack"
+def obsStr : Obs → String
+  | .ok => "ok"
+  | .okListenHeld => "ok listen-held"
+  | .okCancelHeld => "ok cancel-held"
+  | .none_ => "none"
+  | .noop => "noop"
+  | .err => "err"
+  | .noack => "noack"
+  | .refused => "refused"
+  | .badOp => "bad-op"
+  | .pre => "pre"
+  | .fan done => if done then "fan done" else "fan open"
+  | .fired ks => String.intercalate " " ("fired" :: ks.map (·.name))
+  | .sent t ds => fmtSent t ds
+  | .fsent addr t ds done => s!"{whoStr addr} {fmtSent t ds} " ++ (if done then "done" else "more")
+  | .ack ks us parked => ackStr ks us ++ (if parked then " parked" else "")
+  | .ret v hit => s!"ret v{v} " ++ (if hit then "hit" else "miss")
+  | .held v => s!"held v{v}"
+  | .tables tb => tablesStr tb
+  | .other => "?"
 
-/-- Registration section and acknowledgement write of one handler, back to back. -/
-def listenBoth (s : Server) (sid id : Nat) (kinds : List Kind) (uris : List Nat) : Server × List Out :=
-  listenAck (listen s sid id kinds uris) sid id
+/-! ### the clause texts (known_findings.json and seeded/*/meta.json quote them) -/
 
-/-- … unless `SubscribeHandler` refuses one of the granted URIs: then the handler returns the error
-without acknowledging, and its deferred functions undo what it had registered. -/
-def listenOrRefuse (y : Sys) (sid id : Nat) (kinds : List Kind) (uris : List Nat) : Server × List Out :=
-  let au := if resSub y.srv then uris else []
-  match au.findIdx? (fun u => y.refused.contains u) with
-  | some n => (listenRefused y.srv sid id kinds uris n, [])
-  | none => listenBoth y.srv sid id kinds uris
+def whatStr : What → String
+  | .kind k => kindLetter k
+  | .uri u => s!"u{u}"
 
-/-- The first `n` writes of the newest snapshot of kind `k` (the outstanding sends from index `old` on). -/
-def deliverFrom (s : Server) (k : Kind) (old : Nat) : Nat → List Send → Server × List Send
-  | 0, acc => (s, acc)
-  | n + 1, acc =>
-    let (s1, o) := deliver s k old
-    deliverFrom s1 k old n (acc ++ o.filterMap (fun x => match x with | .sent _ x => some x | _ => none))
+def seenStr : Seen → String
+  | .updated => "a ResourceUpdated call did not reach the session"
+  | .dump => "table dump"
+  | .fin => "no notification reached the session after the last change"
 
-def slotNameOfSid (y : Sys) (sid : Nat) : String :=
-  match slotOfSid y sid with
-  | some i => s!"c{i}"
-  | none => s!"x{sid}"
-
-/-- `c<i>` / `x<sid>` ↦ session id. -/
-def sidOfName (y : Sys) (n : String) : Option Nat :=
-  if n.startsWith "x" then (n.drop 1).toNat?
-  else match parseSlot n with
-    | some i => if (y.slot i).used then some (y.slot i).sid else none
-    | none => none
-
-def holdTok : List String → Option Bool
-  | [] => some false
-  | ["hold"] => some true
-  | _ => none
-
-/-- One label on the composed model: new state and the predicted observation. -/
-def modelStep (y : Sys) (toks : List String) (impl : String) : Sys × String :=
-  match toks with
-  | ["config", a, b, c, h] =>
-    match parseCap a, parseCap b, parseCap c with
-    | some ca, some cb, some cc =>
-      let cap : Kind → Cap := fun k => match k with | .tools => ca | .prompts => cb | .resources => cc
-      -- the two permanent resources of the harness: two effective changes before anyone connects
-      let s := (init cap) |> (change · .resources .add) |> (change · .resources .add)
-      ({ srv := s, hook := h == "hook1", configured := true }, "ok")
-    | _, _, _ => (y, "bad-op")
-  | ["ttl", n] => match n.toNat? with
-    | some n => ({ y with ttl := n }, "ok")
-    | none => (y, "bad-op")
-  | ["change", f, e] =>
-    match parseFSet f, parseEff e with
-    | some f, some e =>
-      let eff := !(e == .noop || (e == .remove && y.srv.cnt f == 0))
-      let y := { y with srv := change y.srv f e }
-      (if eff then y.cacheAll f.cache (.bump (fun _ => true)) else y, "ok")
-    | _, _ => (y, "bad-op")
-  | ["advance", d] =>
-    match d.toNat? with
-    | none => (y, "bad-op")
-    | some d =>
-      let y := { y with srv := { y.srv with now := y.srv.now + d } }.tickAll d
-      let (s, fired) := fireDue y.srv
-      let y := { y with srv := s }
-      if y.hook then (y, String.intercalate " " ("fired" :: fired.map (fun p => p.1.name))) else (y, "ok")
-  | ["cbrun", k] =>
-    match parseKind k with
-    | none => (y, "bad-op")
-    | some k =>
-      let old := (y.srv.ks k).inflight.length
-      let (s, outs) := cbrun y.srv k
-      match outs with
-      | [.changed _ to] =>
-        -- the whole fan-out of this snapshot at once (a held fan-out of the same kind stays where it is)
-        let (s, sent) := deliverFrom s k old to.length []
-        deliverChanged { y with srv := s } k sent y.srv.now
-      | _ => (y, "none")
-  | ["cbrun", k, "step"] =>
-    match parseKind k with
-    | none => (y, "bad-op")
-    | some k =>
-      if !y.hook || !(y.srv.ks k).inflight.isEmpty then (y, "refused") else
-      let (s, outs) := cbrun y.srv k
-      match outs with
-      | [.changed _ to] => ({ y with srv := s }, if to.isEmpty then "fan done" else "fan open")
-      | _ => (y, "none")
-  | ["fsend", k] =>
-    match parseKind k with
-    | none => (y, "bad-op")
-    | some k =>
-      let infl := (y.srv.ks k).inflight
-      if infl.isEmpty then (y, "refused") else
-      -- the order of the loop over the subscriber map is not determined: follow the implementation
-      let hint := (words impl).head?.bind (sidOfName y)
-      let idx := match hint with
-        | some sid => (infl.findIdx? (fun x => x.sid == sid)).getD 0
-        | none => 0
-      let addr := slotNameOfSid y (infl.getD idx ⟨0, none⟩).sid
-      let (s, outs) := deliver y.srv k idx
-      let sent := outs.filterMap (fun x => match x with | .sent _ x => some x | _ => none)
-      let (y, str) := deliverChanged { y with srv := s } k sent y.srv.now
-      (y, s!"{addr} {str} " ++ (if (s.ks k).inflight.isEmpty then "done" else "more"))
-  | ["policy", u, pol] =>
-    match parseUri u with
-    | some u =>
-      if pol == "refuse" then ({ y with refused := if y.refused.contains u then y.refused else y.refused ++ [u] }, "ok")
-      else if pol == "accept" then ({ y with refused := y.refused.filter (· != u) }, "ok")
-      else (y, "bad-op")
-    | none => (y, "bad-op")
-  | ["connect", c, sid, g, m] =>
-    match parseSlot c, sid.toNat? with
-    | some i, some sid =>
-      if (y.slot i).used then (y, "refused") else
-      let modern := g == "modern"
-      let mask := parseMask m
-      let s := hello (bind y.srv sid) sid modern
-      let gated := modern && !mask.isEmpty
-      let y := { y with srv := s }
-      let d : DSlot := { used := true, sid := sid, modern := modern, mask := mask, gated := gated,
-                         connected := !gated, caches := freshCaches y }
-      (y.setSlot i d, if gated then "ok listen-held" else "ok")
-    | _, _ => (y, "bad-op")
-  | "listen" :: c :: rest =>
-    match parseSlot c, holdTok rest with
-    | some i, some hold =>
-      let d := y.slot i
-      if !d.used || !d.gated then (y, "refused") else
-      let (s, outs) := listenOrRefuse y d.sid 0 d.mask []
-      let a := firstAck outs
-      let parks := hold && a != "noack"
-      let d := { d with gated := false, connected := true, parked := if parks then d.parked ++ ["m"] else d.parked }
-      (({ y with srv := s }).setSlot i d, if parks then a ++ " parked" else a)
-    | _, _ => (y, "bad-op")
-  | "subscribe" :: c :: u :: rest =>
-    match parseSlot c, parseUri u, holdTok rest with
-    | some i, some u, some hold =>
-      let d := y.slot i
-      if !d.used || !d.connected then (y, "refused") else
-      if !d.modern then
-        if hold then (y, "refused") else
-        if y.refused.contains u then (y, "err") else ({ y with srv := subscribe y.srv d.sid 99 u }, "ok") else
-      if d.cancelHeld.contains s!"r{u}" then (y, "refused") else
-      if d.rsubs.contains u then (y, "noop") else
-      let (s, outs) := listenOrRefuse y d.sid (u + 1) [] [u]
-      let a := firstAck outs
-      let parks := hold && a != "noack"
-      let d := { d with rsubs := d.rsubs ++ [u], parked := if parks then d.parked ++ [s!"r{u}"] else d.parked }
-      let d := d.setCache .read (Cache.step true (d.cache .read) (.sub u)).1
-      (({ y with srv := s }).setSlot i d, if parks then a ++ " parked" else a)
-    | _, _, _ => (y, "bad-op")
-  | "xlisten" :: c :: name :: mask :: rest =>
-    let us := rest.takeWhile (·.startsWith "u")
-    let rest := rest.dropWhile (·.startsWith "u")
-    match parseSlot c, parseXName name, holdTok rest, us.mapM parseUri with
-    | some i, some id, some hold, some uris =>
-      let d := y.slot i
-      let kinds := parseMask mask
-      if !d.used || !d.connected || !d.modern || id < 10 || !decide uris.Nodup || d.parked.contains name
-         || d.cancelHeld.contains name
-         || y.srv.listens.any (fun l => l.sid == d.sid && l.id == id) then (y, "refused") else
-      let (s, outs) := listenOrRefuse y d.sid id kinds uris
-      let a := firstAck outs
-      let parks := hold && a != "noack"
-      let d := { d with parked := if parks then d.parked ++ [name] else d.parked }
-      (({ y with srv := s }).setSlot i d, if parks then a ++ " parked" else a)
-    | _, _, _, _ => (y, "bad-op")
-  | "xend" :: c :: name :: rest =>
-    match parseSlot c, parseXName name, holdTok rest with
-    | some i, some id, some hold =>
-      let d := y.slot i
-      if !d.used || !d.connected || !d.modern || d.parked.contains name || d.cancelHeld.contains name
-         || !y.srv.acked.contains (d.sid, id) then (y, "refused") else
-      if hold then (y.setSlot i { d with cancelHeld := d.cancelHeld ++ [name] }, "ok cancel-held") else
-      ({ y with srv := listenEnd y.srv d.sid id }, "ok")
-    | _, _, _ => (y, "bad-op")
-  | ["canceldone", c, name] =>
-    match parseSlot c with
-    | some i =>
-      let d := y.slot i
-      if !d.used || !d.cancelHeld.contains name then (y, "refused") else
-      let id := match parseXName name with
-        | some id => id
-        | none => ((name.drop 1).toNat?.getD 0) + 1     -- r<j>
-      (({ y with srv := listenEnd y.srv d.sid id }).setSlot i { d with cancelHeld := d.cancelHeld.filter (· != name) }, "ok")
-    | none => (y, "bad-op")
-  | ["ackdone", c, which] =>
-    match parseSlot c with
-    | some i =>
-      let d := y.slot i
-      if !d.used || !d.parked.contains which then (y, "refused") else
-      -- the handler goes on: in the code that exists it has nothing left to do but wait for its end
-      (y.setSlot i { d with parked := d.parked.filter (· != which) }, "ok")
-    | none => (y, "bad-op")
-  | "unsubscribe" :: c :: u :: rest =>
-    match parseSlot c, parseUri u, holdTok rest with
-    | some i, some u, some hold =>
-      let d := y.slot i
-      if !d.used || !d.connected || d.parked.contains s!"r{u}" || d.cancelHeld.contains s!"r{u}" then (y, "refused") else
-      if !d.modern then
-        if hold then (y, "refused") else ({ y with srv := unsubscribe y.srv d.sid u }, "ok") else
-      if !d.rsubs.contains u then (if hold then (y, "refused") else (y, "ok")) else
-      let d := { d with rsubs := d.rsubs.filter (· != u) }
-      let d := d.setCache .read (Cache.step true (d.cache .read) (.unsub u)).1
-      if hold then (y.setSlot i { d with cancelHeld := d.cancelHeld ++ [s!"r{u}"] }, "ok cancel-held") else
-      (({ y with srv := listenEnd y.srv d.sid (u + 1) }).setSlot i d, "ok")
-    | _, _, _ => (y, "bad-op")
-  | ["close", c] =>
-    match parseSlot c with
-    | some i =>
-      let d := y.slot i
-      if !d.used || !d.connected || !d.held.isEmpty || !d.parked.isEmpty || !d.cancelHeld.isEmpty then (y, "refused") else
-      (({ y with srv := close y.srv d.sid }).setSlot i {}, "ok")
-    | none => (y, "bad-op")
-  | ["rupdated", u] =>
-    match parseUri u with
-    | some u =>
-      let y := { y with content := fun k => if k == u then y.content u + 1 else y.content k }
-      let y := y.cacheAll .read (.bump (fun k => k == u))
-      deliverUpdated y u u (updList y.srv u)
-    | none => (y, "bad-op")
-  | ["rupdated", u, "names", v] =>
-    match parseUri u, parseUri v with
-    | some u, some v =>
-      let y := { y with content := fun k => if k == v then y.content v + 1 else y.content k }
-      let y := y.cacheAll .read (.bump (fun k => k == v))
-      match (step y.srv (.updatedNamed u v)).2 with
-      | [.updatedNamed _ _ to] => deliverUpdated y u v to
-      | _ => (y, "bad-op")
-    | _, _ => (y, "bad-op")
-  | ["list", c, key, mode] =>
-    match parseSlot c, parseKey key with
-    | some i, some (o, k) =>
-      let d := y.slot i
-      if !d.used || !d.connected || d.held.contains key || !(["n", "post", "pre"].contains mode) then (y, "refused") else
-      if !d.modern then
-        -- no cache under the legacy protocol: every call is answered by the server
-        let v := curVersion y o k
-        match mode with
-        | "n" => (y, s!"ret v{v} miss")
-        | "post" =>
-          let c1 : Cache.State := { d.cache o with fills := (d.cache o).fills ++ [⟨k, 0, .responded v y.ttl, 0⟩] }
-          (y.setSlot i { (d.setCache o c1) with held := d.held ++ [key] }, s!"held v{v}")
-        | _ =>
-          let c1 : Cache.State := { d.cache o with fills := (d.cache o).fills ++ [⟨k, 0, .sent, 0⟩] }
-          (y.setSlot i { (d.setCache o c1) with held := d.held ++ [key] }, "pre")
-      else
-        let (c1, o1) := Cache.step true (d.cache o) (.listStart k)
-        match o1 with
-        | [.ret _ v _ _] => (y.setSlot i (d.setCache o c1), s!"ret v{v} hit")
-        | _ =>
-          let idx := c1.fills.length - 1
-          match mode with
-          | "pre" => (y.setSlot i { (d.setCache o c1) with held := d.held ++ [key] }, "pre")
-          | "post" =>
-            let c2 := (Cache.step true c1 (.serve idx y.ttl)).1
-            (y.setSlot i { (d.setCache o c2) with held := d.held ++ [key] }, s!"held v{c1.srv k}")
-          | _ =>
-            let c2 := (Cache.step true c1 (.serve idx y.ttl)).1
-            let (c3, _) := Cache.step true c2 (.fill idx)
-            (y.setSlot i (d.setCache o c3), s!"ret v{c1.srv k} miss")
-    | _, _ => (y, "bad-op")
-  | ["send", c, key] =>
-    match parseSlot c, parseKey key with
-    | some i, some (o, k) =>
-      let d := y.slot i
-      let cst := d.cache o
-      match cst.fills.findIdx? (fun f => f.key == k && f.stage == .sent) with
-      | some idx =>
-        if !d.held.contains key then (y, "refused") else
-        if !d.modern then
-          let v := curVersion y o k
-          (y.setSlot i (d.setCache o { cst with fills := cst.fills.set idx ⟨k, 0, .responded v y.ttl, 0⟩ }), s!"held v{v}")
-        else
-          (y.setSlot i (d.setCache o (Cache.step true cst (.serve idx y.ttl)).1), s!"held v{cst.srv k}")
-      | none => (y, "refused")
-    | _, _ => (y, "bad-op")
-  | ["fill", c, key] =>
-    match parseSlot c, parseKey key with
-    | some i, some (o, k) =>
-      let d := y.slot i
-      let cst := d.cache o
-      match cst.fills.findIdx? (fun f => f.key == k && f.stage != .sent) with
-      | some idx =>
-        if !d.held.contains key then (y, "refused") else
-        let v := match (cst.fills.getD idx ⟨0, 0, .sent, 0⟩).stage with | .responded v _ => v | _ => 0
-        let d := { d with held := d.held.filter (· != key) }
-        if !d.modern then
-          (y.setSlot i (d.setCache o { cst with fills := cst.fills.eraseIdx idx }), s!"ret v{v} miss")
-        else
-          (y.setSlot i (d.setCache o (Cache.step true cst (.fill idx)).1), s!"ret v{v} miss")
-      | none => (y, "refused")
-    | _, _ => (y, "bad-op")
-  | ["tables"] => (y, tablesStr y)
-  | ["end"] => (y, "ok")
-  | _ => (y, "bad-op")
-
-/-! ### the monitor: C18 as a predicate on what the implementation did
-
-Built only from the labels and the implementation's observations (acks it sent, deliveries it made,
-versions it returned) — never from the model state above. -/
-
-/-- A live listen as the IMPLEMENTATION acknowledged it. -/
-structure MListen where
-  name : String
-  kinds : List Kind
-  uris : List Nat
-
-/-- A listen ended while a live, acknowledged listen of the same session shared a grant with it. -/
-structure MLost where
-  ended : String
-  survivor : String
-  what : String        -- kind letter or u<j>
-  endedOlder : Bool
-
-structure MSlot where
-  connected : Bool := false
-  modern : Bool := false
-  listens : List MListen := []   -- live listens of the session with a non-empty acknowledged grant, oldest first
-  luris : List Nat := []         -- legacy resources/subscribe answered ok and not undone
-  endedOther : Bool := false     -- a listen of this session ended while another one was live (F19 shape)
-  lost : List MLost := []
-  owed : List Kind := []
-  skipped : List Kind := []      -- owed kinds for which a callback ran without reaching this (entitled) session
-  window : List String := []     -- listen handlers held right after the write of their ack ("m", "r<j>", "L<n>")
-  skippedAck : List Kind := []   -- … and the callback ran inside the window of a listen granted the kind
-  maxHandled : List (String × Nat) := []
-  invalidated : List String := []
-  suspect : List (String × Nat) := []
-  starts : List (String × Nat) := []   -- held calls: key ↦ maxHandled when the call started
-  midFan : List Kind := []       -- a held fan-out of the kind had written to this session when a further change was made
-  refusedUris : List Nat := []   -- URIs of subscriptions/listen requests of this session that got no acknowledgement while the SubscribeHandler refused one of them
-  csubs : List Nat := []         -- cs.resourceSubs as the calls of Subscribe / Unsubscribe leave it
-  offTable : List String := []   -- read keys whose resource-updated was handled while the URI was not in cs.resourceSubs
-
-/-- A fan-out of `notifySessions(kind)` whose loop is held before every write. -/
-structure MFan where
-  kind : Kind
-  expect : List (Nat × List String) := []    -- slots entitled when the snapshot was taken, and the stamps that were right then
-  served : List Nat := []
-
-structure Mon where
-  cap : Kind → Cap := fun _ => .unset
-  ver : FSet → Nat := fun _ => 0
-  cnt : FSet → Nat := fun _ => 0
-  content : Nat → Nat := fun _ => 0
-  slots : List MSlot := [{}, {}, {}]
-  refused : List Nat := []
-  fans : List MFan := []
-
-def Mon.slot (m : Mon) (i : Nat) : MSlot := m.slots.getD i {}
-def Mon.setSlot (m : Mon) (i : Nat) (d : MSlot) : Mon := { m with slots := setAt m.slots i d }
-def Mon.mapSlots (m : Mon) (f : MSlot → MSlot) : Mon := { m with slots := m.slots.map f }
-
-structure Delivery where
-  slot : Nat
-  method : String
-  stamp : String
-  hk : String
-
-def parseDeliveries (impl : String) : Option (Nat × List Delivery) :=
-  match words impl with
-  | hd :: rest =>
-    if !hd.startsWith "sent@" then none else
-    match (hd.drop 5).toNat? with
-    | none => none
-    | some t =>
-      let ds := rest.filterMap (fun tok =>
-        match tok.splitOn ":" with
-        | [c, m, st, hk] => (parseSlot c).map (fun i => (⟨i, m, st, hk⟩ : Delivery))
-        | _ => none)
-      if ds.length == rest.length then some (t, ds) else none
-  | [] => none
-
-def keysOfKind : Kind → List String
-  | .tools => ["tools"] | .prompts => ["prompts"] | .resources => ["resources", "templates"]
-
-def fsetOfKey : String → Option FSet
-  | "tools" => some .tools | "prompts" => some .prompts | "resources" => some .resources
-  | "templates" => some .templates | _ => none
-
-def Mon.verOfKey (m : Mon) (key : String) : Nat :=
-  match fsetOfKey key with
-  | some f => m.ver f
-  | none => if key.startsWith "read:" then m.content ((key.drop 5).toNat?.getD 0) else 0
-
-def MSlot.maxOf (d : MSlot) (key : String) : Nat := (d.maxHandled.lookup key).getD 0
-
-/-- The client handled a notification covering `keys`. -/
-def MSlot.handled (d : MSlot) (m : Mon) (keys : List String) : MSlot :=
-  keys.foldl (fun d key =>
-    { d with maxHandled := assocSet d.maxHandled key (max (d.maxOf key) (m.verOfKey key)),
-             invalidated := if d.invalidated.contains key then d.invalidated else d.invalidated ++ [key] }) d
-
-/-- Some live, acknowledged listen of the session was granted the kind. -/
-def MSlot.grantedK (d : MSlot) (k : Kind) : Bool := d.listens.any (·.kinds.contains k)
-
-/-- The session's subscription to the URI is live. -/
-def MSlot.grantedU (d : MSlot) (u : Nat) : Bool :=
-  if d.modern then d.listens.any (·.uris.contains u) else d.luris.contains u
-
-/-- The handler of a live listen that was granted the kind / URI is held right after its ack write. -/
-def MSlot.windowK (d : MSlot) (k : Kind) : Bool :=
-  d.listens.any (fun l => l.kinds.contains k && d.window.contains l.name)
-def MSlot.windowU (d : MSlot) (u : Nat) : Bool :=
-  d.listens.any (fun l => l.uris.contains u && d.window.contains l.name)
-
-def entitledNow (d : MSlot) (k : Kind) : Bool :=
-  d.connected && (!d.modern || d.grantedK k)
-
-/-- A listen the implementation acknowledged with a non-empty grant is live from now on. -/
-def MSlot.addListen (d : MSlot) (name : String) (kinds : List Kind) (uris : List Nat) : MSlot :=
-  if kinds.isEmpty && uris.isEmpty then d else
-  { d with listens := d.listens.filter (·.name != name) ++ [⟨name, kinds, uris⟩] }
-
-/-- The listen `x` ended (the client cancelled it and the implementation's handler has returned).
-Every live listen of the session that shares a grant with it is remembered: if the session is later
-found missing from that table, it was this end that removed the entry. -/
-def MSlot.endListen (d : MSlot) (x : String) : MSlot :=
-  match d.listens.find? (·.name == x) with
-  | none => d
-  | some lx =>
-    let idx (n : String) : Nat := (d.listens.findIdx? (·.name == n)).getD 0
-    let others := d.listens.filter (·.name != x)
-    let recs := others.flatMap (fun y =>
-      (Kind.all.filter (fun k => lx.kinds.contains k && y.kinds.contains k)).map
-        (fun k => (⟨x, y.name, kindLetter k, idx x < idx y.name⟩ : MLost)) ++
-      (lx.uris.filter y.uris.contains).map (fun u => (⟨x, y.name, s!"u{u}", idx x < idx y.name⟩ : MLost)))
-    { d with listens := others, endedOther := d.endedOther || !others.isEmpty,
-             lost := d.lost.filter (fun r => r.survivor != x) ++ recs }
-
-/-- A table dump shows the session in the table of `what`: the ends recorded so far removed nothing. -/
-def MSlot.present (d : MSlot) (what : String) : MSlot := { d with lost := d.lost.filter (·.what != what) }
-
-/-- The session is missing from the table of `what` although a live, acknowledged listen was granted it:
-was it the end of an overlapping listen that removed the entry? -/
-def MSlot.lostClause (d : MSlot) (what : String) (seen : String) : Option String :=
-  -- the most recent such end
-  match d.lost.reverse.find? (fun r => r.what == what && d.listens.any (·.name == r.survivor)) with
-  | none => none
-  | some r =>
-    if d.window.contains r.survivor then
-      some (s!"C18: ack_after_registration or acked_stays_served (overlapping listens): the session is missing from the table of a subscription while the handler of its live listen that was granted it is still held right after its acknowledgement write AND another listen of the session that was granted the same thing has ended (registered after the acknowledgement, or removed by that end) [ended={r.ended} survivor={r.survivor} what={what}; seen: {seen}]")
-    else
-    let tab := if what.startsWith "u" then "resource" else "list-changed"
+def clauseText : Clause → String
+  | .malformed => "C18: malformed delivery record"
+  | .wrongKind => "C18: fanout_entitled_only: a callback of one kind sent another kind's notification"
+  | .disabled => "C18: none_when_disabled: list_changed delivered although the capability is switched off"
+  | .notConnected => "C18: fanout_entitled_only: delivery to a session that is not connected"
+  | .legacyStamped => "C18: fanout_entitled_only: legacy session got a stamped notification"
+  | .noSubscription => "C18: fanout_entitled_only: 2026-07-28 session without a matching subscription got the notification"
+  | .badStamp => "C18: fanout_entitled_only: notification not stamped with the request id of a live listen of the session that was granted the kind"
+  | .wrongHandler => "C18: fanout_entitled_only: notification dispatched to the wrong client handler"
+  | .twice => "C18: fanout_entitled_only: a session got the same notification twice"
+  | .fanNotEntitled => "C18: sent_was_snapshot / fanout_entitled_only: a held fan-out wrote to a session that was not entitled when its snapshot was taken"
+  | .fanBadStamp => "C18: sent_was_snapshot / fanout_entitled_only: a held fan-out stamped its notification with an id that belonged to no listen of the session granted the kind when the snapshot was taken"
+  | .fanDropped => "C18: at_least_one_after_burst (blocked fan-out): the write of the fan-out to a connected, entitled session delivered nothing"
+  | .lostWindow ended survivor what seen =>
+    s!"C18: ack_after_registration or acked_stays_served (overlapping listens): the session is missing from the table of a subscription while the handler of its live listen that was granted it is still held right after its acknowledgement write AND another listen of the session that was granted the same thing has ended (registered after the acknowledgement, or removed by that end) [ended={nameStr ended} survivor={nameStr survivor} what={whatStr what}; seen: {seenStr seen}]"
+  | .lostOverlap endedOlder ended survivor what seen =>
+    let tab := if what.isUri then "resource" else "list-changed"
     let head := s!"C18: acked_stays_served (overlapping listens, {tab}): "
     let body :=
-      if what.startsWith "u" then
-        if r.endedOlder then
+      if what.isUri then
+        if endedOlder then
           "the end of the OLDER subscriptions/listen stream unsubscribed the session from the URI although a newer, still live, acknowledged stream of the same session was granted the same URI"
         else
           "the end of the NEWER subscriptions/listen stream unsubscribed the session from the URI although an older, still live, acknowledged stream of the same session was granted the same URI"
       else
-        if r.endedOlder then
+        if endedOlder then
           "the end of the OLDER subscriptions/listen stream took the session out of the list-changed table although a newer, still live, acknowledged stream of the same session was granted the same kind"
         else
           "the end of the NEWER subscriptions/listen stream took the session out of the list-changed table although an older, still live, acknowledged stream of the same session was granted the same kind"
-    some (head ++ body ++ s!" [ended={r.ended} survivor={r.survivor} what={what}; seen: {seen}]")
+    head ++ body ++ s!" [ended={nameStr ended} survivor={nameStr survivor} what={whatStr what}; seen: {seenStr seen}]"
+  | .updAckWindow => "C18: ack_after_registration: the server acknowledged the session's subscription to the URI, but a ResourceUpdated call made while the listen handler was still held right after the acknowledgement write did not reach the session (the subscription is registered after it is acknowledged)"
+  | .updMissed => "C18: updated_reaches_exactly_subscribers: a session subscribed to the URI was not notified"
+  | .updRefused => "C18: refused_listen_leaves_no_subscription: the session's subscriptions/listen request naming the URI was refused by the SubscribeHandler (no acknowledgement, no stream), yet a ResourceUpdated call for the URI reached the session: the URIs registered before the refused one stayed subscribed"
+  | .updNotSubscribed => "C18: updated_reaches_exactly_subscribers: a session not subscribed to the URI was notified"
+  | .updTwice => "C18: updated_reaches_exactly_subscribers: a subscriber was notified more than once"
+  | .updMethod => "C18: updated_reaches_exactly_subscribers: wrong notification method"
+  | .updOtherUri => "C18: updated_reaches_exactly_subscribers: notification for another URI"
+  | .updLegacyStamped => "C18: updated_reaches_exactly_subscribers: legacy session got a stamped notification"
+  | .updBadStamp => "C18: updated_reaches_exactly_subscribers: not stamped with the request id of a live listen of the session that carries the subscription"
+  | .staleRead offTable =>
+    "C18: invalidate_on_every_handled_update: a read issued after the client handled a notifications/resources/updated naming that URI was answered from the cache with the content from before the update — the handled notification did not invalidate the read cache" ++
+      (if offTable then " (the client held no Subscribe entry for the URI when it handled the update: the update named a sub-resource of what it subscribed to, or arrived on a stream opened below Subscribe, or overtook the cancellation after Unsubscribe)" else "")
+  | .f7Stale => "C18: F7 list_after_notification_fresh: a response obtained before the notification was put into the cache after the client handled it and is served to a later call (cache has no generation)"
+  | .staleCall => "C18: list_after_notification_fresh: call started after a handled notification returned an older version"
+  | .hitAfterInvalidate => "C18: invalidate_on_notification: cache hit although nothing was fetched since the invalidating notification"
+  | .closedMentioned => "C18: closed_sessions_forgotten: a subscription table or the session list still mentions a closed session"
+  | .ackTableWindow => "C18: ack_after_registration: the server has written the acknowledgement of a subscriptions/listen (the handler is held right after that write) but the subscription it acknowledges is not in the server's table"
+  | .f19Registered => "C18: F19 acked_stays_registered: the session's acknowledged list-changed subscription left the table when another subscriptions/listen of the same session ended"
+  | .ackedMissing => "C18: acked_stays_registered: a subscription the server acknowledged, and the client has not ended, is missing from the server's table"
+  | .refusedLeft => "C18: refused_listen_leaves_no_subscription: resourceSubscriptions still holds the session for a URI of a subscriptions/listen request that the SubscribeHandler refused (no acknowledgement, no stream): the URIs registered before the refused one were not unsubscribed"
+  | .foreignEntry => "C18: acked_stays_registered / refused_listen_leaves_no_subscription: a subscription table holds a 2026-07-28 session under a request id that is not the id of a live, acknowledged listen of that session granted that kind or URI"
+  | .endMixedRemove => "C18: at_least_one_after_burst (Remove* naming several features): a Remove call that named a registered feature together with names that were not registered (or no longer, a repeated name) changed the list, and no list-changed notification sent after it reached this connected, entitled session although every timer has fired and every callback has run — the call did not count as a change (featureSet.remove must report whether ANY named feature was present)"
+  | .endMidFan => "C18: at_least_one_after_burst (blocked fan-out) / change_during_fanout_announced: a change was made while a list-changed fan-out of the same kind was in progress — this session had already been written to, a later write of the loop was still blocked — and the change was never announced to the session: no notification sent after the change reached it although every timer has fired and every callback has run"
+  | .endSkippedAck => "C18: ack_after_registration / at_least_one_after_burst: the session held the acknowledgement of its list-changed subscription when the callback took its snapshot (the listen handler was held right after the acknowledgement write), the snapshot did not include it, and no later notification reached it"
+  | .endF19 => "C18: F19 at_least_one_after_burst: the session's list-changed subscription was dropped when another subscriptions/listen of the same session ended"
+  | .endSkipped => "C18: at_least_one_after_burst: callbacks ran after the last change but none of them notified this entitled session"
+  | .endNoLost => "C18: no_lost_notification: changes were made, every timer has fired and every callback has run, yet an entitled session was never notified after the last change"
 
-def parseRet (impl : String) : Option (Nat × Bool) :=
-  match words impl with
-  | ["ret", v, h] => if v.startsWith "v" then (v.drop 1).toNat?.map (fun n => (n, h == "hit")) else none
-  | _ => none
-
-/-- Check a returned version against the notifications handled before the call started. -/
-def checkRet (d : MSlot) (key : String) (v : Nat) (hit : Bool) (startMax : Nat) : Option String :=
-  if v < startMax then
-    if hit && key.startsWith "read:" && (d.suspect.lookup key) != some v then
-      some ("C18: invalidate_on_every_handled_update: a read issued after the client handled a notifications/resources/updated naming that URI was answered from the cache with the content from before the update — the handled notification did not invalidate the read cache" ++
-        (if d.offTable.contains key then " (the client held no Subscribe entry for the URI when it handled the update: the update named a sub-resource of what it subscribed to, or arrived on a stream opened below Subscribe, or overtook the cancellation after Unsubscribe)" else ""))
-    else
-    if hit && (d.suspect.lookup key) == some v then
-      some "C18: F7 list_after_notification_fresh: a response obtained before the notification was put into the cache after the client handled it and is served to a later call (cache has no generation)"
-    else some "C18: list_after_notification_fresh: call started after a handled notification returned an older version"
-  else if hit && d.invalidated.contains key then
-    some "C18: invalidate_on_notification: cache hit although nothing was fetched since the invalidating notification"
-  else none
-
-def first (l : List (Option String)) : Option String := l.findSome? id
-
-/-- `T[c0=m c1=m] P[] … S[c0 c1]` ↦ [("T", ["c0=m", "c1=m"]), ("P", []), …]. -/
-def parseTables (impl : String) : List (String × List String) :=
-  (impl.splitOn "] ").map (fun piece =>
-    match piece.splitOn "[" with
-    | [name, body] => (name, words (body.replace "]" ""))
-    | _ => ("", []))
-
-/-- `ack <kinds|-> [u<j>…] [parked]` ↦ (kinds, uris, parked). -/
-def parseAck (impl : String) : Option (List Kind × List Nat × Bool) :=
-  match words impl with
-  | "ack" :: ks :: rest => some (parseMask ks, rest.filterMap parseUri, rest.contains "parked")
-  | _ => none
-
-def monitorStep (m : Mon) (toks : List String) (impl : String) : Mon × Option String :=
-  match toks with
-  | ["config", a, b, c, _] =>
-    match parseCap a, parseCap b, parseCap c with
-    | some ca, some cb, some cc =>
-      ({ cap := fun k => match k with | .tools => ca | .prompts => cb | .resources => cc,
-         ver := fun f => if f == .resources then 2 else 0,
-         cnt := fun f => if f == .resources then 2 else 0 }, none)
-    | _, _, _ => (m, none)
-  | ["change", f, e] =>
-    match parseFSet f, parseEff e with
-    | some f, some e =>
-      if impl != "ok" || e == .noop || (e == .remove && m.cnt f == 0) then (m, none) else
-      let k : Kind := match f with | .tools => .tools | .prompts => .prompts | _ => .resources
-      let m := { m with ver := fun f' => if f' == f then m.ver f + 1 else m.ver f',
-                        cnt := fun f' => if f' == f then (match e with | .add => m.cnt f + 1 | .remove => m.cnt f - 1 | _ => m.cnt f) else m.cnt f' }
-      if m.cap k == .off then (m, none) else
-      -- a held fan-out of the kind: what it writes from now on was decided before this change
-      let servedMid : List Nat := (m.fans.filter (·.kind == k)).flatMap (·.served)
-      let m := { m with slots := (List.range 3).map (fun i =>
-                          let d := m.slot i
-                          if servedMid.contains i && !d.midFan.contains k then { d with midFan := d.midFan ++ [k] } else d) }
-      (m.mapSlots (fun d => if d.connected && !d.owed.contains k then { d with owed := d.owed ++ [k] } else d), none)
-    | _, _ => (m, none)
-  | ["cbrun", k] =>
-    match parseKind k with
-    | none => (m, none)
-    | some k =>
-      if impl == "none" then (m, none) else
-      match parseDeliveries impl with
-      | none => (m, some "C18: malformed delivery record")
-      | some (_, ds) =>
-        let perDelivery := ds.map (fun x =>
-          let d := m.slot x.slot
-          if x.method != listChangedMethod k then some "C18: fanout_entitled_only: a callback of one kind sent another kind's notification"
-          else if m.cap k == .off then some "C18: none_when_disabled: list_changed delivered although the capability is switched off"
-          else if !d.connected then some "C18: fanout_entitled_only: delivery to a session that is not connected"
-          else if !d.modern && x.stamp != "plain" then some "C18: fanout_entitled_only: legacy session got a stamped notification"
-          else if d.modern && !d.grantedK k then some "C18: fanout_entitled_only: 2026-07-28 session without a matching subscription got the notification"
-          else if d.modern && !d.listens.any (fun l => l.name == x.stamp && l.kinds.contains k) then
-            some "C18: fanout_entitled_only: notification not stamped with the request id of a live listen of the session that was granted the kind"
-          else if x.hk != "-" && x.hk != kindLetter k then some "C18: fanout_entitled_only: notification dispatched to the wrong client handler"
-          else none)
-        let dup := (List.range 3).any (fun i => (ds.filter (·.slot == i)).length > 1)
-        let got (i : Nat) : Bool := ds.any (·.slot == i)
-        let viol := first (perDelivery ++
-          [if dup then some "C18: fanout_entitled_only: a session got the same notification twice" else none])
-        -- bookkeeping: a recipient's debt of kind k is discharged (the notification was sent after the
-        -- change that created it) and it handled the notification; a session that is not entitled at this
-        -- snapshot is owed nothing; an entitled session that was skipped stays in debt — `end` reports it
-        -- unless a later callback reaches it
-        let m := { m with slots := (List.range 3).map (fun i =>
-          let d := m.slot i
-          if got i then ({ d with owed := d.owed.filter (· != k), skipped := d.skipped.filter (· != k),
-                                  skippedAck := d.skippedAck.filter (· != k), midFan := d.midFan.filter (· != k) }).handled m (keysOfKind k)
-          else if d.owed.contains k && entitledNow d k then
-            { d with skipped := if d.skipped.contains k then d.skipped else d.skipped ++ [k],
-                     skippedAck := if d.modern && d.windowK k && !d.skippedAck.contains k
-                                   then d.skippedAck ++ [k] else d.skippedAck }
-          else { d with owed := d.owed.filter (· != k) }) }
-        (m, viol)
-  | ["policy", u, pol] =>
-    match parseUri u with
-    | some u => ({ m with refused := if pol == "refuse" then m.refused ++ [u] else m.refused.filter (· != u) }, none)
-    | none => (m, none)
-  | ["cbrun", k, "step"] =>
-    match parseKind k with
-    | none => (m, none)
-    | some k =>
-      if !impl.startsWith "fan" then (m, none) else
-      -- the snapshot is taken now: who is entitled now is to be written to, under a stamp that is right now
-      let expect := (List.range 3).filterMap (fun i =>
-        let d := m.slot i
-        if entitledNow d k then
-          some (i, if d.modern then (d.listens.filter (·.kinds.contains k)).map (·.name) else ["plain"])
-        else none)
-      let m := { m with slots := (List.range 3).map (fun i =>
-        let d := m.slot i
-        if expect.any (·.1 == i) then d else { d with owed := d.owed.filter (· != k) }) }
-      let fan : MFan := { kind := k, expect := expect }
-      if impl == "fan done" then
-        -- nothing to write: every entitled session in debt was skipped
-        let m := { m with slots := (List.range 3).map (fun i =>
-          let d := m.slot i
-          if expect.any (·.1 == i) && d.owed.contains k then
-            { d with skipped := if d.skipped.contains k then d.skipped else d.skipped ++ [k],
-                     skippedAck := if d.modern && d.windowK k && !d.skippedAck.contains k then d.skippedAck ++ [k] else d.skippedAck }
-          else d) }
-        (m, none)
-      else ({ m with fans := m.fans.filter (·.kind != k) ++ [fan] }, none)
-  | ["fsend", k] =>
-    match parseKind k with
-    | none => (m, none)
-    | some k =>
-      match words impl with
-      | addr :: rest =>
-        if rest.isEmpty then (m, none) else
-        let last := rest.getLast?.getD ""
-        let body := String.intercalate " " rest.dropLast
-        match m.fans.find? (·.kind == k), parseDeliveries body with
-        | some fan, some (_, ds) =>
-          let perDelivery := ds.map (fun x =>
-            let d := m.slot x.slot
-            if x.method != listChangedMethod k then some "C18: fanout_entitled_only: a callback of one kind sent another kind's notification"
-            else if m.cap k == .off then some "C18: none_when_disabled: list_changed delivered although the capability is switched off"
-            else if !d.connected then some "C18: fanout_entitled_only: delivery to a session that is not connected"
-            else if !d.modern && x.stamp != "plain" then some "C18: fanout_entitled_only: legacy session got a stamped notification"
-            else match fan.expect.find? (·.1 == x.slot) with
-              | none => some "C18: sent_was_snapshot / fanout_entitled_only: a held fan-out wrote to a session that was not entitled when its snapshot was taken"
-              | some (_, stamps) =>
-                if !stamps.contains x.stamp then
-                  some "C18: sent_was_snapshot / fanout_entitled_only: a held fan-out stamped its notification with an id that belonged to no listen of the session granted the kind when the snapshot was taken"
-                else if fan.served.contains x.slot then some "C18: fanout_entitled_only: a session got the same notification twice"
-                else if x.hk != "-" && x.hk != kindLetter k then some "C18: fanout_entitled_only: notification dispatched to the wrong client handler"
-                else none)
-          let dropped := match parseSlot addr with
-            | some i => if ds.isEmpty && (m.slot i).connected && fan.expect.any (·.1 == i) then
-                some "C18: at_least_one_after_burst (blocked fan-out): the write of the fan-out to a connected, entitled session delivered nothing" else none
-            | none => none
-          let got (i : Nat) : Bool := ds.any (·.slot == i)
-          -- the session handles this notification NOW, after every change made so far — also those made since
-          -- the snapshot: its debt is discharged (the sessions written to BEFORE such a change are the ones
-          -- that depend on the change arming a timer of its own: `change_during_fanout_announced`)
-          let m := { m with slots := (List.range 3).map (fun i =>
-            let d := m.slot i
-            if got i then
-              ({ d with owed := d.owed.filter (· != k), skipped := d.skipped.filter (· != k),
-                        skippedAck := d.skippedAck.filter (· != k), midFan := d.midFan.filter (· != k) }).handled m (keysOfKind k)
-            else d) }
-          let fan := { fan with served := fan.served ++ ds.map (·.slot) }
-          let m :=
-            if last == "done" then
-              { m with fans := m.fans.filter (·.kind != k),
-                       slots := (List.range 3).map (fun i =>
-                         let d := m.slot i
-                         if fan.expect.any (·.1 == i) && !fan.served.contains i && d.owed.contains k && entitledNow d k then
-                           { d with skipped := if d.skipped.contains k then d.skipped else d.skipped ++ [k] }
-                         else d) }
-            else { m with fans := m.fans.map (fun f => if f.kind == k then fan else f) }
-          (m, first (perDelivery ++ [dropped]))
-        | _, _ => (m, none)
-      | [] => (m, none)
-  | ["canceldone", c, name] =>
-    match parseSlot c with
-    | some i => if impl == "ok" then (m.setSlot i ((m.slot i).endListen name), none) else (m, none)
-    | none => (m, none)
-  | ["connect", c, _, g, _] =>
-    match parseSlot c with
-    | some i =>
-      if impl.startsWith "ok" then (m.setSlot i { connected := true, modern := g == "modern" }, none) else (m, none)
-    | none => (m, none)
-  | "listen" :: c :: _ =>
-    match parseSlot c, parseAck impl with
-    | some i, some (ks, us, parked) =>
-      let d := (m.slot i).addListen "m" ks us
-      (m.setSlot i { d with window := if parked then d.window ++ ["m"] else d.window }, none)
-    | _, _ => (m, none)
-  | "xlisten" :: c :: name :: _ :: rest =>
-    match parseSlot c, parseAck impl with
-    | some i, some (ks, us, parked) =>
-      let d := (m.slot i).addListen name ks us
-      (m.setSlot i { d with window := if parked then d.window ++ [name] else d.window }, none)
-    | some i, none =>
-      let us := rest.filterMap parseUri
-      let d := m.slot i
-      if impl == "noack" && us.any m.refused.contains then
-        (m.setSlot i { d with refusedUris := d.refusedUris ++ us.filter (fun u => !d.refusedUris.contains u) }, none)
-      else (m, none)
-    | _, _ => (m, none)
-  | "xend" :: c :: name :: _ =>
-    match parseSlot c with
-    | some i => if impl == "ok" then (m.setSlot i ((m.slot i).endListen name), none) else (m, none)
-    | none => (m, none)
-  | "subscribe" :: c :: u :: _ =>
-    match parseSlot c, parseUri u with
-    | some i, some u =>
-      let d := m.slot i
-      if !d.modern then
-        if impl == "ok" && !d.luris.contains u then (m.setSlot i { d with luris := d.luris ++ [u] }, none) else (m, none)
-      else
-        match parseAck impl with
-        | some (ks, us, parked) =>
-          let d := d.addListen s!"r{u}" ks us
-          (m.setSlot i { d with window := if parked then d.window ++ [s!"r{u}"] else d.window,
-                                csubs := if d.csubs.contains u then d.csubs else d.csubs ++ [u] }, none)
-        | none =>
-          if impl == "noack" then
-            (m.setSlot i { d with csubs := if d.csubs.contains u then d.csubs else d.csubs ++ [u],
-                                  refusedUris := if m.refused.contains u && !d.refusedUris.contains u then d.refusedUris ++ [u] else d.refusedUris }, none)
-          else (m, none)
-    | _, _ => (m, none)
-  | ["ackdone", c, which] =>
-    match parseSlot c with
-    | some i =>
-      let d := m.slot i
-      if impl.startsWith "ok" then (m.setSlot i { d with window := d.window.filter (· != which) }, none) else (m, none)
-    | none => (m, none)
-  | "unsubscribe" :: c :: u :: _ =>
-    match parseSlot c, parseUri u with
-    | some i, some u =>
-      let d := m.slot i
-      if impl == "ok" then
-        if d.modern then (m.setSlot i { (d.endListen s!"r{u}") with csubs := d.csubs.filter (· != u) }, none)
-        else (m.setSlot i { d with luris := d.luris.filter (· != u) }, none)
-      else if impl == "ok cancel-held" then
-        -- Unsubscribe has returned: cs.resourceSubs no longer has the URI; the stream is live until the cancellation arrives
-        (m.setSlot i { d with csubs := d.csubs.filter (· != u) }, none)
-      else (m, none)
-    | _, _ => (m, none)
-  | ["close", c] =>
-    match parseSlot c with
-    | some i =>
-      if impl == "ok" then
-        ({ (m.setSlot i {}) with fans := m.fans.map (fun f =>
-            { f with expect := f.expect.filter (·.1 != i), served := f.served.filter (· != i) }) }, none)
-      else (m, none)
-    | none => (m, none)
-  | "rupdated" :: u :: named =>
-    let vOpt : Option Nat := match named with
-      | [] => parseUri u
-      | ["names", v] => parseUri v
-      | _ => none
-    match parseUri u, vOpt with
-    | some u, some v =>
-      -- the subscribers of u are notified; the notification names v, whose content has changed
-      let m := { m with content := fun k => if k == v then m.content v + 1 else m.content k }
-      match parseDeliveries impl with
-      | none => (m, some "C18: malformed delivery record")
-      | some (_, ds) =>
-        let got (i : Nat) : Bool := ds.any (·.slot == i)
-        let perSlot := (List.range 3).map (fun i =>
-          let d := m.slot i
-          let want := d.connected && d.grantedU u
-          let n := (ds.filter (·.slot == i)).length
-          if want && n == 0 then
-            match d.lostClause s!"u{u}" "a ResourceUpdated call did not reach the session" with
-            | some c => some c
-            | none =>
-              if d.modern && d.windowU u then
-                some "C18: ack_after_registration: the server acknowledged the session's subscription to the URI, but a ResourceUpdated call made while the listen handler was still held right after the acknowledgement write did not reach the session (the subscription is registered after it is acknowledged)"
-              else some "C18: updated_reaches_exactly_subscribers: a session subscribed to the URI was not notified"
-          else if !want && n > 0 then
-            if d.refusedUris.contains u then
-              some "C18: refused_listen_leaves_no_subscription: the session's subscriptions/listen request naming the URI was refused by the SubscribeHandler (no acknowledgement, no stream), yet a ResourceUpdated call for the URI reached the session: the URIs registered before the refused one stayed subscribed"
-            else some "C18: updated_reaches_exactly_subscribers: a session not subscribed to the URI was notified"
-          else if n > 1 then some "C18: updated_reaches_exactly_subscribers: a subscriber was notified more than once"
-          else none)
-        let perDelivery := ds.map (fun x =>
-          let d := m.slot x.slot
-          if x.method != resourceUpdatedMethod then some "C18: updated_reaches_exactly_subscribers: wrong notification method"
-          else if x.hk != s!"u{v}" then some "C18: updated_reaches_exactly_subscribers: notification for another URI"
-          else if !d.modern && x.stamp != "plain" then some "C18: updated_reaches_exactly_subscribers: legacy session got a stamped notification"
-          else if d.modern && !d.listens.any (fun l => l.name == x.stamp && l.uris.contains u) then
-            if d.refusedUris.contains u && !d.grantedU u then none   -- reported per slot above
-            else some "C18: updated_reaches_exactly_subscribers: not stamped with the request id of a live listen of the session that carries the subscription"
-          else none)
-        let m := { m with slots := (List.range 3).map (fun i =>
-          let d := m.slot i
-          if got i then
-            let key := s!"read:{v}"
-            let d := d.handled m [key]
-            if d.modern && !d.csubs.contains v then
-              { d with offTable := if d.offTable.contains key then d.offTable else d.offTable ++ [key] }
-            else { d with offTable := d.offTable.filter (· != key) }
-          else d) }
-        (m, first (perSlot ++ perDelivery))
-    | _, _ => (m, none)
-  | ["list", c, key, mode] =>
-    match parseSlot c with
-    | none => (m, none)
-    | some i =>
-      let d := m.slot i
-      match parseRet impl with
-      | some (v, hit) =>
-        let viol := checkRet d key v hit (d.maxOf key)
-        let d := if hit then d else
-          { d with invalidated := d.invalidated.filter (· != key), suspect := d.suspect.filter (·.1 != key) }
-        (m.setSlot i d, viol)
-      | none =>
-        if (impl == "pre" || impl.startsWith "held") && mode != "n" then
-          (m.setSlot i { d with starts := assocSet d.starts key (d.maxOf key) }, none)
-        else (m, none)
-  | ["fill", c, key] =>
-    match parseSlot c with
-    | none => (m, none)
-    | some i =>
-      let d := m.slot i
-      match parseRet impl with
-      | some (v, _) =>
-        let startMax := (d.starts.lookup key).getD 0
-        let viol := if v < startMax then
-            some "C18: list_after_notification_fresh: call started after a handled notification returned an older version"
-          else none
-        -- a notification covering the key was handled while the call was in flight: what it stores is suspect
-        let susp := d.maxOf key > startMax && v < d.maxOf key
-        let d := { d with starts := d.starts.filter (·.1 != key),
-                          invalidated := d.invalidated.filter (· != key),
-                          suspect := if susp then assocSet d.suspect key v else d.suspect.filter (·.1 != key) }
-        (m.setSlot i d, viol)
-      | none => (m, none)
-  | ["tables"] =>
-    -- closed_sessions_forgotten: no table and not the session list may mention a session that is
-    -- not connected (`x<sid>`: a session the harness saw closing; `c<i>`: a slot the monitor saw closing)
-    let flat := String.map (fun ch => if ch == '[' || ch == ']' then ' ' else ch) impl
-    let bad := (words flat).any (fun w =>
-      w.startsWith "x" ||
-      (match parseSlot ((w.splitOn "=").headD "") with
-       | some i => !(m.slot i).connected
-       | none => false))
-    -- acked_stays_served: the session of every listen the implementation acknowledged (and the client has
-    -- not ended) is in the implementation's table of everything that listen was granted, under the request
-    -- id of a live listen of the session that was granted the same thing
-    let tabs := parseTables impl
-    let has (t : String) (e : String) : Bool := ((tabs.lookup t).getD []).contains e
-    let missing := (List.range 3).map (fun i =>
-      let d := m.slot i
-      if !d.connected then none else
-      let kindMiss := if !d.modern then [] else Kind.all.filter (fun k => d.grantedK k &&
-        !d.listens.any (fun l => l.kinds.contains k && has (kindLetter k).toUpper s!"c{i}={l.name}"))
-      let uriMiss := (List.range 3).filter (fun u => d.grantedU u &&
-        (if d.modern then !d.listens.any (fun l => l.uris.contains u && has s!"U{u}" s!"c{i}={l.name}")
-         else !has s!"U{u}" s!"c{i}=q"))
-      match first (kindMiss.map (fun k => d.lostClause (kindLetter k) "table dump") ++
-                   uriMiss.map (fun u => d.lostClause s!"u{u}" "table dump")) with
-      | some c => some c
-      | none =>
-        if kindMiss.any d.windowK || (d.modern && uriMiss.any d.windowU) then
-          some "C18: ack_after_registration: the server has written the acknowledgement of a subscriptions/listen (the handler is held right after that write) but the subscription it acknowledges is not in the server's table"
-        else
-          if !kindMiss.isEmpty && d.endedOther then
-            some "C18: F19 acked_stays_registered: the session's acknowledged list-changed subscription left the table when another subscriptions/listen of the same session ended"
-          else if !kindMiss.isEmpty || !uriMiss.isEmpty then
-            some "C18: acked_stays_registered: a subscription the server acknowledged, and the client has not ended, is missing from the server's table"
-          else none)
-    let m := { m with slots := (List.range 3).map (fun i =>
-      let d := m.slot i
-      if !d.connected || !d.modern then d else
-      let d := Kind.all.foldl (fun d k =>
-        if d.listens.any (fun l => l.kinds.contains k && has (kindLetter k).toUpper s!"c{i}={l.name}") then d.present (kindLetter k) else d) d
-      (List.range 3).foldl (fun d u =>
-        if d.listens.any (fun l => l.uris.contains u && has s!"U{u}" s!"c{i}={l.name}") then d.present s!"u{u}" else d) d) }
-    -- no table holds an entry of a 2026-07-28 session under an id that is not the id of a live, acknowledged
-    -- listen of that session granted the table's kind / URI (a refused request leaves nothing behind)
-    let foreign := (List.range 3).map (fun i =>
-      let d := m.slot i
-      if !d.connected || !d.modern then none else
-      let badK := Kind.all.any (fun k => ((tabs.lookup (kindLetter k).toUpper).getD []).any (fun e =>
-        e.startsWith s!"c{i}=" && !d.listens.any (fun l => l.kinds.contains k && e == s!"c{i}={l.name}")))
-      let badU := (List.range 3).filter (fun u => ((tabs.lookup s!"U{u}").getD []).any (fun e =>
-        e.startsWith s!"c{i}=" && !d.listens.any (fun l => l.uris.contains u && e == s!"c{i}={l.name}")))
-      if badU.any d.refusedUris.contains then
-        some "C18: refused_listen_leaves_no_subscription: resourceSubscriptions still holds the session for a URI of a subscriptions/listen request that the SubscribeHandler refused (no acknowledgement, no stream): the URIs registered before the refused one were not unsubscribed"
-      else if badK || !badU.isEmpty then
-        some "C18: acked_stays_registered / refused_listen_leaves_no_subscription: a subscription table holds a 2026-07-28 session under a request id that is not the id of a live, acknowledged listen of that session granted that kind or URI"
-      else none)
-    (m, first ((if bad then some "C18: closed_sessions_forgotten: a subscription table or the session list still mentions a closed session" else none) :: missing ++ foreign))
-  | ["end"] =>
-    let left := (List.range 3).map (fun i =>
-      let d := m.slot i
-      match Kind.all.find? (fun k => d.owed.contains k && entitledNow d k) with
-      | none => none
-      | some k =>
-        match (if d.modern then d.lostClause (kindLetter k) "no notification reached the session after the last change" else none) with
-        | some c => some c
-        | none =>
-          if d.midFan.contains k then
-            some "C18: at_least_one_after_burst (blocked fan-out) / change_during_fanout_announced: a change was made while a list-changed fan-out of the same kind was in progress — this session had already been written to, a later write of the loop was still blocked — and the change was never announced to the session: no notification sent after the change reached it although every timer has fired and every callback has run"
-          else if d.modern && d.skippedAck.contains k then
-            some "C18: ack_after_registration / at_least_one_after_burst: the session held the acknowledgement of its list-changed subscription when the callback took its snapshot (the listen handler was held right after the acknowledgement write), the snapshot did not include it, and no later notification reached it"
-          else if d.modern && d.endedOther then
-            some "C18: F19 at_least_one_after_burst: the session's list-changed subscription was dropped when another subscriptions/listen of the same session ended"
-          else if d.skipped.contains k then
-            some "C18: at_least_one_after_burst: callbacks ran after the last change but none of them notified this entitled session"
-          else some "C18: no_lost_notification: changes were made, every timer has fired and every callback has run, yet an entitled session was never notified after the last change")
-    (m, first left)
-  | _ => (m, none)
+/-! ### the engine -/
 
 structure DState where
-  sys : Sys := {}
-  mon : Mon := {}
+  sys : Sys.State := {}
+  mon : MState := {}
 
 def engine : Engine DState where
   init := {}
@@ -1118,9 +402,10 @@ def engine : Engine DState where
     match toks with
     | ["reset"] => ({}, { model := "ok" })
     | _ =>
-      let (sys', model) := modelStep d.sys toks impl
-      let (mon', viol) := monitorStep d.mon toks impl
-      ({ sys := sys', mon := mon' }, { model := model, violated := viol })
+      let op := parseOp toks
+      let (sys', model) := Sys.sysStep d.sys op (hintOf impl)
+      let (mon', viol) := monStep d.mon ⟨op, parseObs op impl⟩
+      ({ sys := sys', mon := mon' }, { model := obsStr model, violated := viol.map clauseText })
 
 end Notify.Drv
 
